@@ -283,17 +283,20 @@ theorem compact_roundtrip (r s v : Nat) (hr : r < 2 ^ 256) (hs : s < 2 ^ 256) (h
     rw [if_neg (by simp), h1, h2, h3, f1, f2, f3]
 
 /-- Non-vacuity: the `Lawful` hypotheses are satisfiable (a one-key toy instance). -/
-example : ∃ C : Curve, C.Lawful ∧ ∃ k, 1 ≤ k ∧ k < C.n :=
-  ⟨{ Pub := Nat, n := 2, pub := id, signCompact := fun _ _ => (27, 1, 1),
-     recoverCompact := fun _ _ _ _ => some 1, ser := fun _ => [] },
-   { sign_v := fun _ _ => Or.inl rfl, sign_r := fun _ _ => ⟨Nat.le_refl 1, Nat.lt_succ_self 1⟩,
-     sign_s := fun _ _ => ⟨Nat.le_refl 1, Nat.le_refl 2⟩,
-     n_lt := by decide,
-     recover_sign := fun k _ h1 h2 => by
-       have : k = 1 := by
-         have h2' : k < 2 := h2
-         omega
-       subst this; rfl },
-   1, by decide, by decide⟩
+def toyCurve : Curve :=
+  { Pub := Nat, n := 2, pub := id, signCompact := fun _ _ => (27, 1, 1),
+    recoverCompact := fun _ _ _ _ => some 1, ser := fun _ => [] }
+
+theorem toyCurve_lawful : toyCurve.Lawful :=
+  { sign_v := fun _ _ => Or.inl rfl, sign_r := fun _ _ => ⟨Nat.le_refl 1, Nat.lt_succ_self 1⟩,
+    sign_s := fun _ _ => ⟨Nat.le_refl 1, Nat.le_refl 2⟩,
+    n_lt := by decide,
+    recover_sign := fun k _ h1 h2 => by
+      have : k = 1 := by
+        have h2' : k < 2 := h2
+        omega
+      subst this; rfl }
+
+example : ∃ C : Curve, C.Lawful ∧ ∃ k, 1 ≤ k ∧ k < C.n := ⟨toyCurve, toyCurve_lawful, 1, by decide, by decide⟩
 
 end FFS.Props.C05
